@@ -155,6 +155,43 @@ func c04Directed(t *rapid.T, key []byte, target *big.Int) ([]byte, bool) {
 	return nil, false
 }
 
+// c04Chunks draws a Write chunking aimed at the 16-byte buffering logic:
+// empty writes, single bytes, chunks that complete the buffered block exactly
+// (offset+n == 16) or miss it by one, whole blocks +-1, and arbitrary cuts.
+func c04Chunks(t *rapid.T, n int) []int {
+	var out []int
+	off, steps := 0, 0
+	for off < n && steps < 48 {
+		steps++
+		rem := n - off
+		toEdge := 16 - off%16
+		var c int
+		switch rapid.IntRange(0, 9).Draw(t, "chunkMode") {
+		case 0:
+			c = 0
+		case 1:
+			c = 1
+		case 2, 3:
+			c = rapid.IntRange(1, 15).Draw(t, "chunkSmall")
+		case 4, 5:
+			c = toEdge
+		case 6:
+			c = toEdge + rapid.SampledFrom([]int{-1, 1, 16, 15, 17}).Draw(t, "chunkEdgeDelta")
+		case 7:
+			c = 16*rapid.IntRange(1, 4).Draw(t, "chunkBlocks") + rapid.IntRange(-1, 1).Draw(t, "chunkBlocksDelta")
+		default:
+			c = rapid.IntRange(0, rem).Draw(t, "chunkAny")
+		}
+		c = max(0, min(c, rem))
+		out = append(out, c)
+		off += c
+	}
+	if off < n {
+		out = append(out, n-off)
+	}
+	return out
+}
+
 var c04Targets = []struct {
 	name string
 	v    *big.Int
@@ -333,7 +370,7 @@ func TestC04(t *testing.T) {
 			msg, _ = gen.Bytes(rt, "msg", n)
 			mc = "msg=generated"
 		}
-		chunks := gen.Chunks(rt, "chunks", len(msg), 16)
+		chunks := c04Chunks(rt, len(msg))
 		prefix := gen.RandBytes(rt, "sumPrefix", rapid.IntRange(0, 5).Draw(rt, "sumPrefixLen"))
 		ge, err := c04Check(key, msg, chunks, prefix)
 		if err != nil {
